@@ -250,7 +250,7 @@ class PrimStream(ModelStream):
     parallel = True
 
     def cases(self, ctx):
-        reps = ctx.scale(4, 25)
+        reps = ctx.scale(4, 16)
         out = []
         # static description of the table (argument class lists) without importing liquid
         for p, (arglists, _, _) in _prim_table().items():
@@ -338,22 +338,22 @@ class FilterStream(ModelStream):
             mx = min(mx, 3)
             for l in classes:
                 out.append({"f": f, "l": l, "a": [], "k": 0})
-            # one argument: the whole grid (thorough) / every (left, arg) pair with probability 40 % (quick)
+            # one argument: the whole grid (thorough) / every (left, arg) pair with probability 22 % (quick)
             full1 = mx >= 1
             for l in classes:
                 for a in classes:
                     if not ok(f, [a]):
                         continue
-                    if thorough and full1 or (full1 and rng.chance(40)) or (not full1 and rng.chance(2)):
+                    if thorough and full1 or (full1 and rng.chance(22)) or (not full1 and rng.chance(2)):
                         out.append({"f": f, "l": l, "a": [a], "k": 0})
             if mx >= 2:
-                n2 = ctx.scale(500, 30000)
+                n2 = ctx.scale(300, 12000)
                 for _ in range(n2):
                     a = [rng.choice(classes), rng.choice(classes)]
                     if ok(f, a):
                         out.append({"f": f, "l": rng.choice(classes), "a": a, "k": 0})
             if mx >= 3 or mn >= 2:
-                for _ in range(ctx.scale(300, 6000)):
+                for _ in range(ctx.scale(150, 3000)):
                     a = [rng.choice(classes) for _ in range(3)]
                     if ok(f, a):
                         out.append({"f": f, "l": rng.choice(classes), "a": a, "k": 0})
@@ -363,7 +363,7 @@ class FilterStream(ModelStream):
                 if ok(f, a):
                     out.append({"f": f, "l": rng.choice(classes), "a": a, "k": 0})
             # random members of the classes
-            for _ in range(ctx.scale(120, 2500)):
+            for _ in range(ctx.scale(60, 800)):
                 a = [rng.choice(classes) for _ in range(rng.range(0, max(mx, 1)))]
                 if ok(f, a):
                     out.append({"f": f, "l": rng.choice(classes), "a": a, "k": rng.range(1, 1 << 30)})
@@ -566,7 +566,7 @@ class RenderStream(Stream):
     def cases(self, ctx):
         rng = ctx.rng_for("render")
         out = []
-        for i in range(ctx.scale(2400, 60000)):
+        for i in range(ctx.scale(1500, 25000)):
             prog = gen_program(rng.fork(str(i)))
             # sprinkle values of the awkward classes over the data
             r2 = rng.fork("v" + str(i))
@@ -642,7 +642,7 @@ class ParseStream(Stream):
     def cases(self, ctx):
         rng = ctx.rng_for("parse")
         out = []
-        n = ctx.scale(2500, 40000)
+        n = ctx.scale(1500, 20000)
         alphabet = ["{{", "}}", "{%", "%}", "-", "|", ":", ",", ".", "[", "]", "(", ")", "..", "'", '"', " ", "\n", "if", "endif", "for", "in", "x", "1", "1.5", "==", "and", "or", "not", "contains", "liquid", "raw", "endraw", "comment", "#", "\\", "\x00", "\ud800", "é", "%(x)d", "9" * 30, "assign", "=", "echo", "case", "when", "else", "tablerow", "cycle", "include", "render", "with", "macro", "call", "extends", "block", "translate", "plural"]
         for i in range(n):
             r = rng.fork(str(i))
